@@ -214,7 +214,14 @@ def build_evidence(prop, tier, base, good, harness, reported, known_hits, det, w
     fault_free = 0
     realfs = 0
     nontrivial_sigs = set()
+    scenarios, sweeps = {}, {}
     for r in good:
+        if r.get("mode") == "sweep":
+            k = "%s:%s" % tuple(r.get("sweep") or ["?", "?"])
+            sweeps[k] = sweeps.get(k, 0) + 1
+        else:
+            k = r.get("scenario") or "none (random fill only)"
+            scenarios[k] = scenarios.get(k, 0) + 1
         _sum_into(fired, r["fired"])
         _sum_into(configured, r["configured"])
         _sum_into(stats, r["stats"])
@@ -284,16 +291,21 @@ def build_evidence(prop, tier, base, good, harness, reported, known_hits, det, w
                                                 "bodies] per file of the package (libcint.py excluded)"},
         "distinct_callee_ambient_outcome_triples": len(triples),
         "distinct_callee_trigrams": len(trigrams),
+        "scripted_openings": dict(sorted(scenarios.items())),
+        "sweeps_by_kind_and_target": dict(sorted(sweeps.items())),
         "probes": {k: v for k, v in sorted(stats.items())},
         "determinism_selftest": det,
         "components": {
             "real": ["every gbasis module except integrals/libcint.py, imported from " + ns.root, "numpy", "scipy",
                      "single-threaded BLAS"],
-            "simulated": ["file system seen by gbasis.parsers (module attribute `open`; 8% of runs use a real temporary "
-                          "directory instead)", "the user: owner of arrays/lists/shells/files and of the ambient "
-                          "numpy/scipy/warnings state"],
-            "stub": ["pyscf Mole (class with _atom, _basis, cart)", "iodata.convert (identity) - from_iodata itself is "
-                     "not driven yet"],
+            "simulated": ["I/O seam of gbasis.parsers: module attribute `open` wraps the real open of a private "
+                          "temporary directory and injects EACCES/EIO on open and EIO on read (8% of runs run without "
+                          "the seam)", "the user: owner of arrays/lists/shells/files and of the ambient "
+                          "numpy/scipy/warnings state", "reference worlds: a forked zygote that applies state-building "
+                          "operations and evaluates queries in children; a second, pristine zygote that never calls the "
+                          "library in-process (import calls only)"],
+            "stub": ["pyscf Mole (class with _atom, _basis, cart); from_pyscf is real",
+                     "iodata IOData object and iodata.convert.convert_to_segmented (identity); from_iodata is real"],
             "not_run": ["gbasis.integrals.libcint (shared library absent)"],
         },
         "workers": workers,
